@@ -14,6 +14,7 @@ import SpecVerif.Model.ClassGlue
 import SpecVerif.Model.Object
 import SpecVerif.Model.Window
 import SpecVerif.Model.Criteria
+import SpecVerif.Model.Dpss
 /-
   Line-protocol driver for the executable model (no Mathlib anywhere below this file, so it links as a
   `lean_exe`).
@@ -448,6 +449,12 @@ def handleReal (cmd : String) (hd : List String) (vs : List (List CFloat)) : Opt
     | "window_kaiser" => out (wKaiser N (par 0))
     | "window_taylor" => out (wTaylor N (par 0).toUInt64.toNat (par 1))
     | _ => some (.error "unsupported")
+  | "dpssglue" =>
+      -- dpssglue N | NW | tapsum | raw_0 | raw_1 ...   → tapers (k vectors), eigenvalues
+      let Nn := natAt hd 0
+      let re := fun (v : List CFloat) => v.map (fun z => z.re)
+      let r := dpssGlue Nn (par 0) ((vs.drop 2).map re) (re (vs.getD 1 []))
+      some (.ok ((r.1 ++ [r.2]).map (fun w => w.map (fun v => (⟨v, 0.0⟩ : CFloat)))))
   | "enbw" => out [enbw ((vs.getD 0 []).map (fun z => z.re))]
   | "rc2lar" => out ((vs.getD 0 []).map (fun z => rc2lar z.re))
   | "lar2rc" => out ((vs.getD 0 []).map (fun z => lar2rc z.re))
